@@ -40,6 +40,9 @@ def configs(tier):
         out.append(dict(family='builder', entry='nonMarkov_directed_percolate_network', graph=g, rule='threshold', tags=['builder', g]))
         if graphs.ALL[g][1]:
             out.append(dict(family='builder', entry='nonMarkov_directed_percolate_network', graph=g, rule='boolean', tags=['builder', g, 'boolean']))
+            # xi / zeta as mappings that compute their values on demand (defaultdict, __missing__), as in the documentation's sample
+            out.append(dict(family='builder', entry='nonMarkov_directed_percolate_network', graph=g, rule='threshold', mapping='on-demand',
+                            tags=['builder', g, 'on-demand-mapping']))
         out.append(dict(family='size', entry='estimate_SIR_prob_size', graph=g, tags=['size', g]))
         for weights in (True, False):
             out.append(dict(family='timing-builder', entry='nonMarkov_directed_percolate_network_with_timing', graph=g, weights=weights,
@@ -132,7 +135,18 @@ def run_path(h, cfg):
             xi = {u: ('xi', u) for u in r.G.nodes()}
             zeta = {u: ('zeta', u) for u in r.G.nodes()}
             transmission = lambda x, z: table[(x[1], z[1])]
-        H = h.call_must_succeed('no-exception', EoN.nonMarkov_directed_percolate_network, r.G, xi, zeta, transmission)
+        xi_arg, zeta_arg = xi, zeta
+        if cfg.get('mapping') == 'on-demand':
+            class OnDemand(dict):
+                def __init__(self, src):
+                    dict.__init__(self)
+                    self.src = src
+
+                def __missing__(self, k):
+                    self[k] = self.src[k]
+                    return self[k]
+            xi_arg, zeta_arg = OnDemand(xi), OnDemand(zeta)
+        H = h.call_must_succeed('no-exception', EoN.nonMarkov_directed_percolate_network, r.G, xi_arg, zeta_arg, transmission)
         if H is None:
             return None
         builder_obligations(h, r, H, xi, zeta, table, cfg['rule'])
